@@ -40,6 +40,7 @@ type sess struct {
 	applied []string
 	slow    *Resp // data request with a slow upload
 	during  *Resp // data request issued during that upload
+	after   *Resp // data request issued after an oversized one had been refused
 	actor   bool  // a conformant client keeps polling / reading and answers pings
 	got     []Pkt // messages the actor received
 }
@@ -270,6 +271,18 @@ func (s *sess) action(name string) func() {
 			r := w.Request("POST", s.pc.url(true), ReqOpt{Hdr: map[string]string{"Content-Type": ct}, Body: body, DeclLen: 50_000_000})
 			s.during = r
 			s.reqs = append(s.reqs, r)
+		}
+	case "oversized-post-then-post":
+		// a data request announcing a body above the limit is refused (413); the session's next data request,
+		// strictly afterwards, is an ordinary one
+		return func() {
+			body, ct := s.pc.EncodeBody([]Pkt{Msg("big")})
+			r := w.Request("POST", s.pc.url(true), ReqOpt{Hdr: map[string]string{"Content-Type": ct}, Body: body, DeclLen: 50_000_000})
+			s.reqs = append(s.reqs, r)
+			r.Wait()
+			r.WaitReturn()
+			s.after = s.pc.Post([]Pkt{Msg("next")})
+			s.reqs = append(s.reqs, s.after)
 		}
 	case "repoll":
 		// the client's next poll, issued as soon as the pending one has come back (or was given up)
@@ -586,6 +599,12 @@ func (s *sess) oraclePolling(actions []string) {
 			x.Fail("overlap-close-reason%s: session closed with %q after overlapping data requests", fp, s.rec.CloseReasons()[0])
 		}
 	}
+	if s.after != nil && len(actions) == 1 {
+		// (the silent client is closed by the heartbeat later on: only an overlap-style closure is wrong)
+		if cr := s.rec.CloseReasons(); !s.after.wrote || s.after.Code != 200 || (len(cr) > 0 && cr[0] == "transport error") {
+			x.Fail("post-after-refused-oversized%s: the data request following a refused oversized one was answered %d, session %s %v", fp, s.after.Code, s.rec.Sock.ReadyState(), s.rec.CloseReasons())
+		}
+	}
 	// ok only after all packets of the payload were processed
 	for _, r := range w.Resps {
 		if strings.HasPrefix(r.Desc, "POST") && r.Code == 200 && string(r.Body) == "ok" {
@@ -729,6 +748,8 @@ func sessCases(thorough bool) []sessCase {
 	out = append(out, sessCase{kind: "polling", pending: true, actions: []string{"slow-post", "post-during-upload", "send"}})
 	out = append(out, sessCase{kind: "polling", pending: true, actions: []string{"slow-post", "oversized-post-during-upload"}})
 	out = append(out, sessCase{kind: "polling", pending: false, actions: []string{"slow-post", "oversized-post-during-upload"}})
+	out = append(out, sessCase{kind: "polling", pending: true, actions: []string{"oversized-post-then-post"}})
+	out = append(out, sessCase{kind: "polling", pending: false, actions: []string{"oversized-post-then-post"}})
 	// the application closes the session from a send callback
 	for _, kind := range []string{"polling", "websocket", "webtransport"} {
 		for _, a := range []string{"send-cb-close-true", "send-cb-close-false"} {
